@@ -200,6 +200,19 @@ func c03RunImpl(bs []float64, ops []float64, isWrite []bool) (panicked bool, out
 				w.bk = append(w.bk, [2]uint64{bits, b.GetCumulativeCount()})
 			}
 			outs = append(outs, w)
+			// the collected result belongs to the caller, who may modify it in place (e.g. fold scrapes together):
+			// that must not influence any later collection
+			for _, b := range m.Histogram.Bucket {
+				if b.CumulativeCount != nil {
+					*b.CumulativeCount += 7
+				}
+				if b.UpperBound != nil {
+					*b.UpperBound = -1
+				}
+			}
+			if m.Histogram.SampleCount != nil {
+				*m.Histogram.SampleCount += 3
+			}
 		} else {
 			h.Observe(ops[i])
 		}
